@@ -255,7 +255,7 @@ def minimise(mod, scenario, values, rule, budget_s=45.0, max_tries=500):
 def write_replay(prop, v, values, mod, minimised_tries):
     os.makedirs(os.path.join(VERIF, "replays"), exist_ok=True)
     res = one_run(mod, v["scenario"], replay=values)
-    vv = res["violations"][0]
+    vv = (res["violations"] or [dict(v)])[0]
     rdir = os.environ.get("VERIF_REPLAY_DIR") or os.path.join(VERIF, "replays")
     os.makedirs(rdir, exist_ok=True)
     path = os.path.join(rdir, f"{prop}-{v['seed']}.json")
@@ -271,6 +271,95 @@ def write_replay(prop, v, values, mod, minimised_tries):
             "how": f"./check --replay {os.path.relpath(path, VERIF)}",
         }, f, indent=1)
     return path
+
+
+def _reproduce(prop, v):
+    """(forked child, pristine state) the tape with which the violation reproduces, or None"""
+    mod = load_check(prop)
+    values = v["tape"]
+    if values is None:
+        values = list(one_run(mod, v["scenario"], seed=v["seed"])["tape"].values)
+    if still_fails(mod, v["scenario"], values, v["rule"]) is not None:
+        return values
+    # the recorded tape ends where the worker's run ended; from a pristine state the
+    # same seed may get further and fail later: take the tape of that run instead
+    res = one_run(mod, v["scenario"], seed=v["seed"])
+    if any(x["rule"] == v["rule"] for x in res.get("violations", [])[:1]):
+        return list(res["tape"].values)
+    return None
+
+
+def _minimise(prop, v, values, budget_s):
+    mod = load_check(prop)
+    return minimise(mod, v["scenario"], values, v["rule"], budget_s=budget_s)
+
+
+def _fails(prop, v, values):
+    mod = load_check(prop)
+    return still_fails(mod, v["scenario"], values, v["rule"]) is not None
+
+
+def _write(prop, v, values, tries):
+    return write_replay(prop, v, values, load_check(prop), tries)
+
+
+def _minimise_and_write(prop, v, budget_s):
+    """reproduce, minimise, write the replay file - every stage in its own forked child of
+    this (pristine) process, because the minimiser's hundreds of runs may themselves leave
+    state behind in the code under test"""
+    values = in_pristine_child(_reproduce, prop, v)
+    if values is None:
+        return None
+    got = in_pristine_child(_minimise, prop, v, values, budget_s)
+    small, tries = got if got is not None else (values, 0)
+    if small != values and not in_pristine_child(_fails, prop, v, small):
+        small = values
+    path = in_pristine_child(_write, prop, v, small, tries)
+    if path is None:
+        return None
+    return path, tries, len(values), len(small)
+
+
+def in_pristine_child(fn, *args, timeout=400):
+    """run fn(*args) in a forked child of the current process; its JSON-able result or None"""
+    import select
+    r, w = os.pipe()
+    sys.stdout.flush()
+    sys.stderr.flush()
+    pid = os.fork()
+    if pid == 0:
+        code = 0
+        try:
+            os.close(r)
+            out = fn(*args)
+            with os.fdopen(w, "w") as f:
+                json.dump(out, f)
+        except BaseException:
+            traceback.print_exc()
+            code = 3
+        finally:
+            os._exit(code)
+    os.close(w)
+    chunks = []
+    t_end = time.time() + timeout
+    with os.fdopen(r, "r") as f:
+        while True:
+            left = t_end - time.time()
+            if left <= 0 or not select.select([f], [], [], left)[0]:
+                try:
+                    os.kill(pid, 9)
+                except OSError:
+                    pass
+                break
+            data = f.read()
+            if not data:
+                break
+            chunks.append(data)
+    os.waitpid(pid, 0)
+    try:
+        return json.loads("".join(chunks))
+    except ValueError:
+        return None
 
 
 def replay_file(path):
@@ -445,24 +534,37 @@ def run_check(prop, tier, master, workers=None, runs_override=None):
     for entry, n in known_hits.values():
         lines.append(f"KNOWN-FINDING: property={prop} {entry['id']}: "
                      f"{entry['description']} ({n} runs)")
-    # unknown violations: group by rule, minimise + replay the first of each rule
+    # unknown violations: group by rule, minimise + replay the first of each rule that
+    # reproduces from a pristine process state. All of that happens in a forked child of
+    # this process (which has not executed any run itself): a worker executes many runs one
+    # after the other, and code under test that keeps state in module or class attributes
+    # can make a run fail only because of the runs before it
     seen_rules = set()
     for vs in unknown:
-        v = min(vs, key=lambda v: (len(v["tape"]) if v["tape"] else 1 << 30))
-        if v["rule"] in seen_rules:
+        cands = sorted(vs, key=lambda v: (len(v["tape"]) if v["tape"] else 1 << 30))
+        if cands[0]["rule"] in seen_rules:
             continue
-        seen_rules.add(v["rule"])
+        seen_rules.add(cands[0]["rule"])
         if len(seen_rules) > 4:
             break
-        values = v["tape"]
-        if values is None:
-            values = list(one_run(mod, v["scenario"], seed=v["seed"])["tape"].values)
-        small, tries = minimise(mod, v["scenario"], values, v["rule"],
-                                budget_s=cfg.get("minimise_s", 40))
-        if still_fails(mod, v["scenario"], small, v["rule"]) is None:
-            small = values
-        path = write_replay(prop, v, small, mod, tries)
+        got = None
+        step = max(1, len(cands) // 10)
+        tries_order = cands[:4] + cands[4::step][:10]
+        for v in tries_order:
+            got = _minimise_and_write(prop, v, cfg.get("minimise_s", 40))
+            if got is not None:
+                break
+        if got is None:
+            v = cands[0]
+            harness_errors.insert(
+                0, f"violation rule={v['rule']} (seen in {len(vs)} runs, e.g. seed={v['seed']}) "
+                f"does not reproduce from a pristine process state: the outcome of a run "
+                f"depends on the runs executed before it in the same worker (state kept in "
+                f"module or class attributes of the code under test?)")
+            continue
+        path, tries, nvalues, nsmall = got
         if verify_replay_fresh(path):
+            values, small = [0] * nvalues, [0] * nsmall
             lines.append(f"VIOLATION property={prop} replay={path}")
             lines.append(f"  rule={v['rule']} params={json.dumps(v['params'])} "
                          f"seed={v['seed']} scenario={v['scenario']} "
